@@ -333,6 +333,32 @@ def races(chk, gwbin):
             t1.join(); t2.join()
             verdict("stress#%d" % i, bk, key, res["up"], res["dl"], True)
         chk.tie("gateway still running after the race schedules", g.alive(), g.log_tail())
+    # S5: the same race in a versioned bucket: two acknowledged uploads of one key while DeleteBucket is parked; both versions must survive a refused DeleteBucket
+    with gw.Site({"iam": False, "versioning": True}, name="c16v") as site:
+        hk = hooks.Hooks(site.base)
+        g = site.gateway(gwbin, extra_env=hk.env())
+        A, B = s3c.Client(g.port, "root", "rootsecret"), s3c.Client(g.port, "root", "rootsecret")
+        for name, key in (("delete-checked|put;put (versioned)|delete-removes", "obj"), ("delete-checked|put;put nested (versioned)|delete-removes", "d/e/obj")):
+            bk = "vrace-%d" % len(key)
+            chk.require(A.req("PUT", "/" + bk).status == 200 and A.req("PUT", "/" + bk, query={"versioning": ""}, body=b"<VersioningConfiguration><Status>Enabled</Status></VersioningConfiguration>").status == 200,
+                        "c16:setup", "versioned bucket setup failed")
+            ups = []
+            def two():
+                ups.append(B.req("PUT", "/%s/%s" % (bk, key), body=b"first")); ups.append(B.req("PUT", "/%s/%s" % (bk, key), body=b"second")); return ups[-1]
+            dl, up, parked = hooks.held(hk, "posix.deletebucket.checked", lambda: A.req("DELETE", "/" + bk), two)
+            hk.clear()
+            chk.case(("race", name, 0), True); chk.traces += 1
+            v1 = ups[0].headers.get("x-amz-version-id") if ups else None
+            g1 = A.req("GET", "/%s/%s" % (bk, key), query={"versionId": v1 or "none"}); g2 = A.req("GET", "/%s/%s" % (bk, key))
+            row = {"schedule": name, "uploads": [(u.status, u.headers.get("x-amz-version-id")) for u in ups], "delete_bucket": (dl.status, dl.code) if dl is not None else None,
+                   "get_first_version": (g1.status, g1.code), "get_current": (g2.status, g2.code), "parked": parked}
+            chk.count("race:versioned:delete=%s:first=%d:current=%d" % (dl.status if dl is not None else None, g1.status, g2.status))
+            if not parked:
+                chk.tie("hook schedule %s reached its yield point" % name, False, row)
+            elif len(ups) == 2 and ups[0].status == 200 and ups[1].status == 200 and (g1.status != 200 or g1.body != b"first" or g2.status != 200 or g2.body != b"second"):
+                chk.fail("c16:acknowledged-version-lost", "schedule %s: both uploads of %s/%s were acknowledged, DeleteBucket answered %s; the first version now reads %d %s, the current one %d %s"
+                         % (name, bk, key, row["delete_bucket"], g1.status, g1.code, g2.status, g2.code), row)
+        chk.tie("gateway still running after the versioned race schedules", g.alive(), g.log_tail())
 
 
 def run(chk):
